@@ -47,6 +47,12 @@ func (r *runner) check(c Case, record bool) (kind, msg string) {
 	if res.resp.Panic != "" {
 		return "go-panic", "Go panic escaped from golua: " + res.resp.Panic
 	}
+	if c.Bulk > 0 {
+		if msg := checkBulk(c, res.resp.Log); msg != "" {
+			return "bulk-release", msg
+		}
+		return "", ""
+	}
 	v, st := checkLog(c, res.resp.Log, r.kfLost)
 	if record {
 		r.record(c, res.resp.Log, st, v == nil)
@@ -185,10 +191,66 @@ func TestC18(t *testing.T) {
 		rec.Assume("open finding " + kfCrashID + ": the generated programs skip a re-mark (setmetatable with __gc) of a value inside a GC-isolated context other than the one it was created in (counted in class remark:skipped-by-finding-guard)")
 	}
 
+	// release path under load: thousands of releasable values die per
+	// collection while Lua keeps running (every one released exactly once by
+	// the time the runtime is closed)
+	for i, n := range []int{300, 3000, 3000, 8000} {
+		if !rec.Mine(i) {
+			continue
+		}
+		c := Case{Bulk: n, BulkRounds: 20}
+		rec.Class("bulk-release")
+		rec.NonTrivial(fmt.Sprint("bulk|", i, n))
+		if kind, msg := run.check(c, true); msg != "" {
+			rec.Violation(kind, c, msg)
+			return
+		}
+	}
+
 	RunRapid(rec, "C18/histories", rec.Pick(250, 3000), 0, func(t *rapid.T) {
 		c := genCase(t)
 		if kind, msg := run.check(c, true); msg != "" {
 			FailCase(t, kind, c, "%s", msg)
 		}
 	})
+}
+
+
+// checkBulk: every resource the bulk program created is released exactly once
+// by the end of the log.
+func checkBulk(c Case, log []string) string {
+	created := -1
+	rel := map[string]int{}
+	for _, l := range log {
+		switch {
+		case strings.HasPrefix(l, "bulk-created "):
+			fmt.Sscanf(l, "bulk-created %d", &created)
+		case strings.HasPrefix(l, "release "):
+			rel[strings.TrimPrefix(l, "release ")]++
+		case strings.HasPrefix(l, "chunkerr"):
+			return "the bulk program failed: " + l
+		}
+	}
+	if created != c.Bulk*c.BulkRounds {
+		return fmt.Sprintf("the bulk program did not finish (created %d of %d)", created, c.Bulk*c.BulkRounds)
+	}
+	never, twice, example := 0, 0, ""
+	for i := 1; i <= created; i++ {
+		switch n := rel[fmt.Sprint(i)]; {
+		case n == 0:
+			never++
+			if example == "" {
+				example = fmt.Sprintf("resource %d was never released", i)
+			}
+		case n > 1:
+			twice++
+			if example == "" {
+				example = fmt.Sprintf("resource %d was released %d times", i, n)
+			}
+		}
+	}
+	if never+twice > 0 {
+		return fmt.Sprintf("%d rounds of %d releasable userdata created and dropped while Lua keeps running: by the time the runtime is closed %d were never released and %d more than once (e.g. %s)", c.BulkRounds, c.Bulk, never, twice, example)
+	}
+	return ""
 }
